@@ -239,10 +239,14 @@ def run(tier, workers=None):
     # uploads under the name the store keeps the properties in
     hist_cfgs.append(Config(front="wsgi", backend="tree", prefix="/", metadata="file", names={"cal": ["a.ics", ".xandikos"], "ab": [".xandikos"], "c2": []}, bodies={"cal": ["X", "CFG"], "ab": ["CFG"], "c2": []},
                             features=set(), props={"cal": {"displayname": ["v1"]}, "ab": {"displayname": ["v1"]}}, oracles={"C15"}, label="tree/wsgi+reserved-names"))
+    # a collection made by plain MKCOL (no type recorded): properties set while it is empty, then its first members
+    hist_cfgs.append(Config(front="wsgi", backend="tree", prefix="/", metadata="file", names={"cal": [], "ab": [], "c2": ["a.ics", "b.vcf"]}, bodies={"cal": [], "ab": [], "c2": ["X", "K"]},
+                            features={"c2", "mkcol", "restart"}, props={"c2": {"displayname": ["v2"], "comment": ["c1"]}}, oracles={"C15"}, label="tree/wsgi+untyped-collection"))
     e1 = {"states": 0, "transitions": 0, "replays": 0}
     per_cfg = []
     for cfg in hist_cfgs:
-        res = explore.explore(lambda cfg=cfg: DavSys(cfg), max_depth=2 if tier == "quick" else 4, workers=workers, max_states=3000, budget_s=None if tier == "quick" else 150)
+        seeds_ = [[("mkcol", "c2")], [("mkcol", "c2"), ("proppatch", "c2", "displayname", "v2")]] if "untyped" in cfg.label else ()
+        res = explore.explore(lambda cfg=cfg: DavSys(cfg), max_depth=2 if tier == "quick" else 4, workers=workers, max_states=3000, budget_s=None if tier == "quick" else 150, seed_histories=seeds_)
         for e in res.errors:
             rep.harness_error(e[:1500])
         for sig, e in res.violations.items():
